@@ -514,6 +514,46 @@ def check_table(acc, types, header, rows, domain, depth, case):
             ctx.table("transposed", cls, {"select_as_header": c},
                       lambda: t.transposed("new", select_as_header=c), newh, want, raises=ValueError if dup else None)
 
+    # --- operations that change the table object itself: the object is observed (rows materialised) before and after
+    # each step of a short history, so whatever it keeps from an earlier observation is exposed
+    for c in header:
+        ci = header.index(c)
+        unique = len(set(col[c])) == len(col[c])
+        t2 = mk(header, rows)
+        mh, mr = list(header), [tuple(r) for r in rows]
+        if ctx.table("in place", "fresh copy" + zero, None, lambda: t2, mh, mr) is None:
+            break
+
+        def _set_index(name):
+            t2.index_name = name
+            return t2
+
+        if unique:
+            mh = [c] + [h for h in header if h != c]
+            mr = [tuple([r[ci]] + [v for i, v in enumerate(r) if i != ci]) for r in rows]
+            if ctx.table("in place: index_name = column", "after the rows were read once" + zero, {"index_name": c}, lambda: _set_index(c), mh, mr) is None:
+                continue
+            if ctx.table("in place: index_name = None", "after the rows were read once" + zero, {"index_name": None}, lambda: _set_index(None), mh, mr) is None:
+                continue
+        else:
+            ctx.table("in place: index_name = column", "column with repeated values" + zero, {"index_name": c}, lambda: _set_index(c), mh, mr, raises=ValueError)
+            t2 = mk(header, rows)
+            observe(t2)
+        newvals = list(range(100, 100 + n))
+
+        def _set_col():
+            t2.columns["zz"] = newvals
+            return t2
+
+        mh2 = mh + ["zz"]
+        mr2 = [tuple(r) + (newvals[i],) for i, r in enumerate(mr)]
+        if n and ctx.table("in place: columns[new] = values", "after the rows were read once", {"column": "zz"}, _set_col, mh2, mr2) is not None:
+            def _del_col():
+                del t2.columns[mh2[0]]
+                return t2
+
+            ctx.table("in place: del columns[first]", "after the rows were read once", {"column": mh2[0]}, _del_col, mh2[1:], [r[1:] for r in mr2])
+
     # --- depth 2: a second operation on every table-valued result, against the model of that result
     for h2, r2, tab in results:
         c2 = dict(case)
@@ -707,6 +747,9 @@ DELIMITED = [
     ("write(.csv.bz2)", "t.csv.bz2", None, "write", ","),
     ("write(.txt, sep=',')", "t.txt", ",", "write", ","),
     ("write(.txt, sep=tab)", "t.txt", "\t", "write", "\t"),
+    # an explicit separator that is not the one the file suffix suggests: the argument wins, on both sides
+    ("write(.csv, sep=tab)", "u.csv", "\t", "write", "\t"),
+    ("write(.tsv.gz, sep=',')", "u.tsv.gz", ",", "write", ","),
     ("to_csv()", "s.csv", None, "to_csv", ","),
     ("to_tsv()", "s.tsv", None, "to_tsv", "\t"),
 ]
